@@ -29,6 +29,9 @@ CInit(cfg) == [cfg |-> cfg, phase |-> "new", skip |-> FALSE,
                pclosing |-> 0, pclosed |-> FALSE,
                inst |-> <<>>,          \* id -> [reg, outs, owner, th, born, ready, returned, closed, discarded]
                curs |-> <<>>,          \* process -> call in progress
+               reports |-> {},         \* [th, line]: Close calls that returned a disposal error
+               waited |-> {},          \* [th, scope, line]: a Close in progress started waiting for that scope's disposal
+               fails |-> {},           \* [inst, line, closer, cov]: failing instance closes and the Close calls in progress that cover them
                firsts |-> <<>>,        \* <<scope, reg>> -> first instance seen for that scoped registration (not discarded)
                handed |-> {}]
 
@@ -56,7 +59,7 @@ OverlapClasses == DisposedClasses \cup {"ctorError", "resolution"}
 \* ---- call ---------------------------------------------------------------------------------
 ApplyCall2(e) ==
     LET tgt == ScopeOfTarget(e.sc)
-        rec == [op |-> e.op, sc |-> e.sc, name |-> e.name, t |-> e.t, k |-> e.k, line |-> l,
+        rec == [op |-> e.op, sc |-> e.sc, name |-> e.name, t |-> e.t, k |-> e.k, line |-> l, nerr |-> 0, nself |-> 0,
                 mustRefuse |-> IF e.op \in {"resolve", "group", "create"}
                                THEN (IF e.sc = "prov" THEN cs.pclosed ELSE IsClosed(tgt)) ELSE FALSE,
                 wasClosed |-> IF e.op = "closeprov" THEN cs.pclosing > 0
@@ -87,7 +90,7 @@ ApplyCtor2(e) ==
         owner == IF r.life = "singleton" THEN "prov" ELSE e.scope
         newIds == IF e.outcome = "ok" THEN Range(e.outs) ELSE {}
         recs == [i \in newIds |-> [reg |-> e.reg, outs |-> {x \in DOMAIN e.outs : e.outs[x] = i}, owner |-> owner, life |-> r.life,
-                                   th |-> e.th, born |-> l, ready |-> 0, returned |-> FALSE, closed |-> 0, discarded |-> FALSE,
+                                   th |-> e.th, born |-> l, ready |-> 0, returned |-> FALSE, closed |-> 0, discarded |-> FALSE, failed |-> FALSE,
                                    deps |-> UNION {Range(e.args[j].ids) : j \in DOMAIN e.args}]]
     IN [cs EXCEPT !.inst = recs @@ @]
 
@@ -116,9 +119,19 @@ GuardsClose2(e) ==
      CG("scopes_before_singletons", {"C11"}, (me.owner = "prov" /\ since > 0) =>
           \A j \in Ids : (cs.inst[j].owner # "prov" /\ settledBefore(j)) => cs.inst[j].closed >= 1)}
 
+\* a failing instance Close counts for every Close call in progress whose subtree contains the instance's owner and
+\* that is performed by the closing process itself or by a context watcher (whose result nobody else receives)
+IsWatcher(th) == Len(th) > 2 /\ SubSeq(th, 1, 2) = "w:"
+Covers(c, owner) == IF c.op = "closeprov" THEN TRUE
+                    ELSE c.op = "close" /\ c.sc \in SNames /\ owner \in Sub(c.sc)
+CoversTarget(c2, c) == IF c2.op = "closeprov" THEN TRUE
+                       ELSE c.op = "close" /\ c2.sc \in SNames /\ c.sc \in Sub(c2.sc)
 ApplyClose2(e) ==
     IF e.inst \notin Ids THEN cs
-    ELSE [cs EXCEPT !.inst = [@ EXCEPT ![e.inst] = [@ EXCEPT !.closed = @ + 1, !.discarded = IsDiscard(e)]]]
+    ELSE LET owner == cs.inst[e.inst].owner
+             cov == {th \in DOMAIN cs.curs : cs.curs[th].op \in {"close", "closeprov"} /\ Covers(cs.curs[th], owner)}
+         IN [cs EXCEPT !.inst = [@ EXCEPT ![e.inst] = [@ EXCEPT !.closed = @ + 1, !.discarded = IsDiscard(e), !.failed = e.outcome = "err"]],
+                       !.fails = IF e.outcome = "err" THEN @ \cup {[inst |-> e.inst, line |-> l, closer |-> e.th, cov |-> cov]} ELSE @]
 
 \* ---- ret ----------------------------------------------------------------------------------
 GuardsRet2(e) ==
@@ -148,8 +161,17 @@ GuardsRet2(e) ==
                  CG("transient_fresh", {"C03", "C09"}, (okval /\ life = "transient") =>
                        (cs.inst[v].owner = tgt /\ v \notin cs.handed))}
               ELSE {})
-     ELSE IF c.op \in {"close", "closeprov", "cancel"} THEN
-        {CG("close_returns_nil", {"C12"}, err = {})}
+     ELSE IF c.op \in {"close", "closeprov"} THEN
+        \* a Close answers for the failing instance closes it performed itself and for those in the subtree of every scope
+        \* whose disposal it waited for (that is where it collects what a context watcher closed on its behalf)
+        {CG("close_reports_failures_in_its_subtree", {"C12"}, "disposal" \notin err =>
+               \A f \in {x \in cs.fails : x.line > c.line} :
+                   /\ f.closer # e.th
+                   /\ ~\E w \in cs.waited : /\ w.th = e.th /\ w.line > c.line /\ w.scope \in SNames
+                                             /\ cs.inst[f.inst].owner \in Sub(w.scope)),
+         CG("close_error_only_if_something_failed", {"C12"}, err # {} =>
+               /\ err \subseteq {"disposal"}
+               /\ \E i \in Ids : cs.inst[i].failed /\ Covers(c, cs.inst[i].owner))}
      ELSE {})
 
 ApplyRet2(e) ==
@@ -172,8 +194,10 @@ ApplyRet2(e) ==
         IN [base EXCEPT !.firsts = IF life = "scoped" /\ <<tgt, cs.inst[v].reg>> \notin DOMAIN @ THEN (<<tgt, cs.inst[v].reg>> :> v) @@ @ ELSE @,
                         !.handed = IF life = "transient" THEN @ \cup {v} ELSE @]
     ELSE IF c.op = "close" /\ c.sc \in SNames THEN
-        [base EXCEPT !.scopes = [s \in SNames |-> IF s \in Sub(c.sc) THEN [@[s] EXCEPT !.closed = TRUE, !.closing = IF @ = 0 THEN c.line ELSE @] ELSE @[s]]]
-    ELSE IF c.op = "closeprov" THEN [base EXCEPT !.pclosed = TRUE]
+        [base EXCEPT !.reports = IF "disposal" \in err THEN @ \cup {[th |-> e.th, line |-> l]} ELSE @,
+                     !.scopes = [s \in SNames |-> IF s \in Sub(c.sc) THEN [@[s] EXCEPT !.closed = TRUE, !.closing = IF @ = 0 THEN c.line ELSE @] ELSE @[s]]]
+    ELSE IF c.op = "closeprov" THEN [base EXCEPT !.pclosed = TRUE,
+                                                  !.reports = IF "disposal" \in err THEN @ \cup {[th |-> e.th, line |-> l]} ELSE @]
     ELSE base
 
 \* ---- end of scenario ------------------------------------------------------------------------
@@ -200,6 +224,7 @@ Apply2(e) ==
     ELSE IF e.ev = "ctor" THEN ApplyCtor2(e)
     ELSE IF e.ev = "close" THEN ApplyClose2(e)
     ELSE IF e.ev = "ret" /\ e.th \in DOMAIN cs.curs THEN ApplyRet2(e)
+    ELSE IF e.ev = "waits" THEN [cs EXCEPT !.waited = @ \cup {[th |-> e.th, scope |-> e.scope, line |-> l]}]
     ELSE cs
 
 Step ==
